@@ -175,6 +175,13 @@ impl LinkS {
     { unimplemented!() }
 }
 pub struct AtomicU32S { pub v: u32 }
+pub enum Ordering { Relaxed, Release, Acquire, AcqRel, SeqCst }
+impl AtomicU32S {
+    #[verifier::external_body]
+    pub fn fetch_add(&self, n: u32, o: Ordering) -> (r: u32) { unimplemented!() }
+    #[verifier::external_body]
+    pub fn store(&self, n: u32, o: Ordering) { unimplemented!() }
+}
 pub enum CreditMode { Manual, Auto(SequenceNo) }
 
 //@@ type file=fe2o3-amqp/src/link/receiver.rs kind=struct name=ReceiverInner
@@ -184,7 +191,7 @@ pub enum CreditMode { Manual, Auto(SequenceNo) }
 //@@ subst `mpsc::Sender<SessionControl>` => `SessionControlTx` rule=R9
 //@@ subst `mpsc::Sender<LinkFrame>` => `LinkFrameTx` rule=R9
 //@@ subst `mpsc::Receiver<LinkFrame>` => `LinkFrameRx` rule=R9
-//@@ subst `Option<Box<IncompleteTransfer>>` => `Option<IncompleteTransfer>` rule=R8
+//@@ subst `Option<Box<IncompleteTransfer>>` => `Option<IncompleteTransfer>, pub received: Ghost<Seq<u8>>` rule=R8
 //@@ end
 
 impl ReceiverInner {
@@ -196,12 +203,18 @@ impl ReceiverInner {
     }
 
     /// `self.dispose(&delivery, None, Accepted{}.into()).await` (the auto-accept disposition): it queues a frame on the bounded link->session channel and so is a
-    /// cancellation point -- the recv future may be dropped while it pends. `received`: the payload octets taken from the link's incoming channel for the delivery
-    /// that has not been returned to the application yet.
+    /// cancellation point -- the recv future may be dropped while it pends. `self.received` (ghost, set on entry of the function that is handed a frame): the payload octets taken from the link's
+    /// incoming channel for the delivery that has not been returned to the application yet.
     #[verifier::external_body]
-    fn dispose_accept(&mut self, d: &Delivery, Ghost(received): Ghost<Seq<u8>>) -> (r: Result<(), DispositionError>)
-        requires old(self).buffered() =~= received,      // [C16.recv.no-await-while-holding-a-delivery] at a cancellation point every payload octet already taken from the channel for a delivery not yet returned is still held by the receiver ITSELF (its reassembly buffer), not only by locals of the future being polled: otherwise dropping the recv future there loses the delivery
-        ensures final(self).incomplete_transfer == old(self).incomplete_transfer, final(self).link == old(self).link,
+    fn dispose_accept(&mut self, d: &Delivery) -> (r: Result<(), DispositionError>)
+        requires old(self).buffered() =~= old(self).received@,      // [C16.recv.no-await-while-holding-a-delivery] at a cancellation point every payload octet already taken from the channel for a delivery not yet returned is still held by the receiver ITSELF (its reassembly buffer), not only by locals of the future being polled: otherwise dropping the recv future there loses the delivery
+        ensures final(self).incomplete_transfer == old(self).incomplete_transfer, final(self).link == old(self).link, final(self).received == old(self).received,
+    { unimplemented!() }
+    /// `self.update_credit_if_auto(n).await` (a flow queued on the same bounded channel): a cancellation point like the one above
+    #[verifier::external_body]
+    fn update_credit_if_auto(&mut self, processed: u32) -> (r: Result<(), DispositionError>)
+        requires old(self).buffered() =~= old(self).received@,      // [C16.recv.no-await-while-holding-a-delivery]
+        ensures final(self).incomplete_transfer == old(self).incomplete_transfer, final(self).link == old(self).link, final(self).received == old(self).received,
     { unimplemented!() }
 
     /// resumption path (transfer.state carries Received{..}): may trim the buffer; outside the contracts below, which
@@ -214,6 +227,28 @@ impl ReceiverInner {
     #[verifier::external_body]
     fn on_resuming_transfer(&mut self, transfer: Transfer, payload: Payload) -> (r: Result<Option<Delivery>, RecvError>)
     { unimplemented!() }
+
+    /// recv_inner (unit RECVLOOP): takes one frame from the link channel and handles it
+    #[verifier::external_body]
+    fn recv_inner(&mut self) -> (r: Result<Option<Delivery>, RecvError>)
+    { unimplemented!() }
+    /// the point where `recv` starts taking frames: what an earlier, cancelled recv left in the reassembly buffer must still be there
+    fn resume_point(&self, Ghost(untouched): Ghost<bool>)
+        requires untouched,          // [C16.recv.resumes-the-parked-delivery] a new recv call continues the partial delivery parked by a recv future that was dropped between two frames: it must not discard or alter the reassembly buffer before it reads on
+    {}
+
+//@@ fn file=fe2o3-amqp/src/link/receiver.rs impl=`~impl<L>ReceiverInner<L>where` name=recv
+//@@ generics
+//@@ nowhere
+//@@ attr #[verifier::exec_allows_no_decreases_clause]
+//@@ subst `Delivery<T>` => `Delivery` rule=R7
+//@@ entry
+        let ghost __buf0 = self.buffered();
+//@@ stmt -1
+        self.resume_point(Ghost(self.buffered() =~= __buf0));
+//@@ spec
+    ensures true,
+//@@ end
 
 //@@ fn file=fe2o3-amqp/src/link/receiver.rs impl=`~impl<L>ReceiverInner<L>where` name=on_incomplete_transfer
 //@@ subst `Some(Box::new(incomplete))` => `Some(incomplete)` rule=R8
@@ -235,7 +270,7 @@ impl ReceiverInner {
 //@@ generics
 //@@ nowhere
 //@@ subst `Delivery<T>` => `Delivery` rule=R7
-//@@ subst `self.dispose(&delivery, None, Accepted {}.into())` => `self.dispose_accept(&delivery, Ghost(__recv0))` rule=R16
+//@@ subst `self.dispose(&delivery, None, Accepted {}.into())` => `self.dispose_accept(&delivery)` rule=R16
 //@@ spec
     requires
         old(self).wf(), old(self).buffered().len() + payload@.len() < 0x1_0000_0000,     // ASSUMED: a delivery buffers fewer than 2^32 bytes
@@ -244,7 +279,7 @@ impl ReceiverInner {
         r is Ok ==> r->Ok_0 is Some && r->Ok_0->Some_0.bytes@ =~= old(self).buffered() + payload@,         // [C10.complete.bytes] exactly one delivery, decoded from the concatenation of all frame payloads in arrival order [C01.reassembly.bytes]
         r is Ok && old(self).incomplete_transfer is None ==> r->Ok_0->Some_0.performative == transfer,
 //@@ entry
-        let ghost __recv0 = self.buffered() + payload@;
+        self.received = Ghost(self.buffered() + payload@);
         proof {
             lemma_concat_one(payload);
             if self.incomplete_transfer is Some { lemma_concat_push(self.incomplete_transfer->Some_0.buffer@, payload); }
